@@ -429,13 +429,24 @@ func BlockUntil(kind int, obj interface{}, cond func() bool) {
 	e.point(opDesc{kind: kind, obj: obj, en: cond})
 }
 
-// SortedKeys returns the keys of a string-keyed map in sorted order (T5).
+// MapOrderDesc selects the iteration order T5 gives to string-keyed maps:
+// ascending keys (default) or descending keys.  Go leaves the order undefined,
+// so code must be correct under both; the harness explores both where several
+// collections exist.
+var MapOrderDesc bool
+
+// SortedKeys returns the keys of a string-keyed map in a deterministic order (T5).
 func SortedKeys[V any](m map[string]V) []string {
 	ks := make([]string, 0, len(m))
 	for k := range m {
 		ks = append(ks, k)
 	}
 	sort.Strings(ks)
+	if MapOrderDesc {
+		for i, j := 0, len(ks)-1; i < j; i, j = i+1, j-1 {
+			ks[i], ks[j] = ks[j], ks[i]
+		}
+	}
 	return ks
 }
 
